@@ -408,17 +408,19 @@ class sqlmeta(with_metaclass(declarative.DeclarativeMeta, object)):
             setattr(soClass, '_SO_from_python_%s' % name, column.from_python)
             setattr(soClass, '_SO_to_python_%s' % name, column.to_python)
             setattr(soClass, rawSetterName(name), setter)
-            # Then do the aliasing.  A setter inherited from the
-            # superclass that is itself such an alias (not written by
-            # the user) is replaced and stays "plain"
+            # Then do the aliasing
             setter._SO_plainSetter = True
-            inherited = getattr(soClass, setterName(name), None)
-            if inherited is None or (name == 'childName') or \
-                    getattr(inherited, '_SO_plainSetter', False):
+            if not hasattr(soClass, setterName(name)) or (name == 'childName'):
                 setattr(soClass, setterName(name), setter)
                 # We keep track of setters that haven't been
                 # overridden, because we can combine these
                 # set columns into one SQL UPDATE query.
+                sqlmeta._plainSetters[name] = 1
+            elif getattr(getattr(soClass, setterName(name)),
+                         '_SO_plainSetter', False):
+                # the alias a plain superclass got for this column (not
+                # a setter written by the user): it works for the
+                # subclass as it is, and the column stays "plain"
                 sqlmeta._plainSetters[name] = 1
 
         ##################################################
@@ -524,7 +526,8 @@ class sqlmeta(with_metaclass(declarative.DeclarativeMeta, object)):
         if name in sqlmeta._plainGetters:
             delattr(soClass, getterName(name))
         delattr(soClass, rawSetterName(name))
-        if name in sqlmeta._plainSetters:
+        if name in sqlmeta._plainSetters and \
+                setterName(name) in soClass.__dict__:
             delattr(soClass, setterName(name))
         if column.foreignKey:
             delattr(soClass,
